@@ -363,26 +363,26 @@ class Body:
 #   ('unknown', why)
 
 IDENTITY_CALLS = (
-    "std::clone::Clone::clone",
-    "std::convert::Into::into",
-    "std::convert::From::from",
-    "std::ops::Deref::deref",
-    "std::ops::DerefMut::deref_mut",
-    "std::convert::AsRef::as_ref",
-    "std::convert::AsMut::as_mut",
-    "std::borrow::Borrow::borrow",
-    "std::borrow::ToOwned::to_owned",
-    "std::future::IntoFuture::into_future",
-    "std::pin::Pin::new_unchecked",
-    "std::pin::Pin::new",
-    "std::pin::Pin::as_mut",
-    "std::pin::Pin::get_mut",
-    "std::pin::Pin::get_unchecked_mut",
-    "std::convert::identity",
-    "std::iter::IntoIterator::into_iter",
-    "std::sync::Arc::new",
-    "std::boxed::Box::new",
-    "std::boxed::Box::pin",
+    "clone::Clone::clone",
+    "convert::Into::into",
+    "convert::From::from",
+    "ops::deref::Deref::deref",
+    "ops::deref::DerefMut::deref_mut",
+    "convert::AsRef::as_ref",
+    "convert::AsMut::as_mut",
+    "borrow::Borrow::borrow",
+    "borrow::ToOwned::to_owned",
+    "future::into_future::IntoFuture::into_future",
+    "pin::Pin::new_unchecked",
+    "pin::Pin::new",
+    "pin::Pin::as_mut",
+    "pin::Pin::get_mut",
+    "pin::Pin::get_unchecked_mut",
+    "convert::identity",
+    "iter::traits::collect::IntoIterator::into_iter",
+    "sync::Arc::new",
+    "boxed::Box::new",
+    "boxed::Box::pin",
 )
 
 
@@ -961,10 +961,10 @@ def path_words(body, start, sym_block, sym_edge=None, stops=(), succ=None, max_w
 
 
 WELL_KNOWN_ENUMS = {
-    "std::option::Option": {0: "None", 1: "Some"},
-    "std::result::Result": {0: "Ok", 1: "Err"},
-    "std::ops::ControlFlow": {0: "Continue", 1: "Break"},
-    "std::task::Poll": {0: "Ready", 1: "Pending"},
+    "core::option::Option": {0: "None", 1: "Some"},
+    "core::result::Result": {0: "Ok", 1: "Err"},
+    "core::ops::control_flow::ControlFlow": {0: "Continue", 1: "Break"},
+    "core::task::poll::Poll": {0: "Ready", 1: "Pending"},
 }
 
 
